@@ -756,6 +756,14 @@ impl<'a> ClientAssociationOptions<'a> {
             !presentation_contexts.is_empty(),
             crate::association::MissingAbstractSyntaxSnafu
         );
+        // presentation context identifiers are the odd numbers 1..=255:
+        // more than 128 contexts cannot be given distinct identifiers
+        ensure!(
+            presentation_contexts.len() <= 128,
+            crate::association::TooManyPresentationContextsSnafu {
+                count: presentation_contexts.len(),
+            }
+        );
 
         // choose called AE title
         let called_ae_title: &str = match (&called_ae_title, ae_title) {
